@@ -84,11 +84,12 @@ fn preloaded() -> Engine {
 // msgpack walker: offsets of structural bytes (markers and their length bytes)
 // ---------------------------------------------------------------------------------------------
 
-fn walk(buf: &[u8], mut pos: usize, out: &mut Vec<usize>, depth: usize) -> Option<usize> {
+fn walk(buf: &[u8], mut pos: usize, out: &mut Vec<usize>, strs: &mut Vec<(usize, usize)>, depth: usize) -> Option<usize> {
     if depth > 64 || pos >= buf.len() {
         return None;
     }
     let m = buf[pos];
+    let start = pos;
     out.push(pos);
     let be = |p: usize, n: usize| -> Option<usize> {
         if p + n > buf.len() {
@@ -111,23 +112,26 @@ fn walk(buf: &[u8], mut pos: usize, out: &mut Vec<usize>, depth: usize) -> Optio
     };
     match m {
         0x00..=0x7f | 0xe0..=0xff | 0xc0 | 0xc2 | 0xc3 => Some(pos),
-        0xa0..=0xbf => Some(pos + (m & 0x1f) as usize),
+        0xa0..=0xbf => {
+            strs.push((start, 1 + (m & 0x1f) as usize));
+            Some(pos + (m & 0x1f) as usize)
+        }
         0x90..=0x9f => {
             let mut p = pos;
             for _ in 0..(m & 0x0f) {
-                p = walk(buf, p, out, depth + 1)?;
+                p = walk(buf, p, out, strs, depth + 1)?;
             }
             Some(p)
         }
         0x80..=0x8f => {
             let mut p = pos;
             for _ in 0..2 * (m & 0x0f) as usize {
-                p = walk(buf, p, out, depth + 1)?;
+                p = walk(buf, p, out, strs, depth + 1)?;
             }
             Some(p)
         }
-        0xc4 | 0xd9 => { let n = lenbytes(&mut pos, 1, out)?; Some(pos + n) }
-        0xc5 | 0xda => { let n = lenbytes(&mut pos, 2, out)?; Some(pos + n) }
+        0xc4 | 0xd9 => { let n = lenbytes(&mut pos, 1, out)?; if m == 0xd9 { strs.push((start, 2 + n)); } Some(pos + n) }
+        0xc5 | 0xda => { let n = lenbytes(&mut pos, 2, out)?; if m == 0xda { strs.push((start, 3 + n)); } Some(pos + n) }
         0xc6 | 0xdb => { let n = lenbytes(&mut pos, 4, out)?; Some(pos + n) }
         0xca => Some(pos + 4),
         0xcb => Some(pos + 8),
@@ -135,22 +139,27 @@ fn walk(buf: &[u8], mut pos: usize, out: &mut Vec<usize>, depth: usize) -> Optio
         0xcd | 0xd1 => Some(pos + 2),
         0xce | 0xd2 => Some(pos + 4),
         0xcf | 0xd3 => Some(pos + 8),
-        0xdc => { let n = lenbytes(&mut pos, 2, out)?; let mut p = pos; for _ in 0..n { p = walk(buf, p, out, depth + 1)?; } Some(p) }
-        0xdd => { let n = lenbytes(&mut pos, 4, out)?; let mut p = pos; for _ in 0..n { p = walk(buf, p, out, depth + 1)?; } Some(p) }
-        0xde => { let n = lenbytes(&mut pos, 2, out)?; let mut p = pos; for _ in 0..2 * n { p = walk(buf, p, out, depth + 1)?; } Some(p) }
-        0xdf => { let n = lenbytes(&mut pos, 4, out)?; let mut p = pos; for _ in 0..2 * n { p = walk(buf, p, out, depth + 1)?; } Some(p) }
+        0xdc => { let n = lenbytes(&mut pos, 2, out)?; let mut p = pos; for _ in 0..n { p = walk(buf, p, out, strs, depth + 1)?; } Some(p) }
+        0xdd => { let n = lenbytes(&mut pos, 4, out)?; let mut p = pos; for _ in 0..n { p = walk(buf, p, out, strs, depth + 1)?; } Some(p) }
+        0xde => { let n = lenbytes(&mut pos, 2, out)?; let mut p = pos; for _ in 0..2 * n { p = walk(buf, p, out, strs, depth + 1)?; } Some(p) }
+        0xdf => { let n = lenbytes(&mut pos, 4, out)?; let mut p = pos; for _ in 0..2 * n { p = walk(buf, p, out, strs, depth + 1)?; } Some(p) }
         _ => Some(pos), // ext types etc.: not produced by the encoder
     }
 }
 
-fn structural_offsets(buf: &[u8]) -> Vec<usize> {
+fn structural_offsets(buf: &[u8]) -> (Vec<usize>, Vec<(usize, usize)>) {
     let mut out = vec![];
-    let end = walk(buf, 5, &mut out, 0);
+    let mut strs = vec![];
+    let end = walk(buf, 5, &mut out, &mut strs, 0);
     assert_eq!(end, Some(buf.len()), "walker must consume a valid buffer exactly");
     out.sort();
     out.dedup();
-    out
+    (out, strs)
 }
+
+/// Replacement texts for whole string values (re-encoded with a correct length header, so the
+/// buffer stays decodable and the *content* of a rule field is what is hostile).
+const STR_MENU: [&str; 12] = ["", "/", "//", "a", "é/", "/é", "/é/", "*", "^", "\"", "\\", "x, \"y"];
 
 const MENU: [u8; 19] = [0x00, 0x7f, 0x80, 0x90, 0xa0, 0xc0, 0xc2, 0xc3, 0xc4, 0xca, 0xcc, 0xcf, 0xd9, 0xdb, 0xdc, 0xdd, 0xde, 0xdf, 0xff];
 const HUGE: [u8; 4] = [0xdb, 0xc6, 0xdd, 0xdf];
@@ -163,6 +172,8 @@ const HDR_SIGMA: [u8; 8] = [0x00, 0xd1, 0xd9, 0x3a, 0xaf, 0x1f, 0x8b, 0xff];
 struct Faults {
     buf: Vec<u8>,
     st: Vec<usize>,
+    strs: Vec<(usize, usize)>,
+    n_str: u64,
     n_prefix: u64,
     n_flip: u64,
     n_sub: u64,
@@ -173,13 +184,13 @@ struct Faults {
 
 impl Faults {
     fn new(buf: Vec<u8>, pairs: bool) -> Faults {
-        let st = structural_offsets(&buf);
+        let (st, strs) = structural_offsets(&buf);
         let n = buf.len() as u64;
         let s = st.len() as u64;
-        Faults { n_prefix: n, n_flip: 8 * n, n_sub: s * MENU.len() as u64, n_huge: s * HUGE.len() as u64, n_version: 255, n_pairs: if pairs { s * (s - 1) / 2 * 36 } else { 0 }, buf, st }
+        Faults { n_str: strs.len() as u64 * STR_MENU.len() as u64, strs, n_prefix: n, n_flip: 8 * n, n_sub: s * MENU.len() as u64, n_huge: s * HUGE.len() as u64, n_version: 255, n_pairs: if pairs { s * (s - 1) / 2 * 36 } else { 0 }, buf, st }
     }
     fn total(&self) -> u64 {
-        self.n_prefix + self.n_flip + self.n_sub + self.n_huge + self.n_version + self.n_pairs
+        self.n_prefix + self.n_flip + self.n_sub + self.n_huge + self.n_version + self.n_str + self.n_pairs
     }
     fn make(&self, mut i: u64) -> (String, Vec<u8>) {
         let b = &self.buf;
@@ -216,6 +227,16 @@ impl Faults {
             return (format!("version[{}]", i + 1), v);
         }
         i -= self.n_version;
+        if i < self.n_str {
+            let (start, total) = self.strs[(i / STR_MENU.len() as u64) as usize];
+            let rep = STR_MENU[(i % STR_MENU.len() as u64) as usize];
+            let mut v = b[..start].to_vec();
+            v.push(0xa0 | rep.len() as u8);
+            v.extend_from_slice(rep.as_bytes());
+            v.extend_from_slice(&b[start + total..]);
+            return (format!("replace-string[offset {} := {:?}]", start, rep), v);
+        }
+        i -= self.n_str;
         // pairs of structural substitutions over a 6-value sub-menu
         const SUB: [u8; 6] = [0x00, 0x90, 0xa0, 0xc0, 0xc4, 0xdc];
         let combo = i / 36;
@@ -519,7 +540,7 @@ fn check(ctx: &Ctx) -> i32 {
     let mut meta = serde_json::Map::new();
     for &b in &buffers {
         let f = Faults::new(valid_buffer(b), pair_buffers.contains(&b));
-        meta.insert(SOURCES[b].name.to_string(), json!({"bytes": f.buf.len(), "structural_offsets": f.st.len(), "prefixes": f.n_prefix, "bit_flips": f.n_flip, "substitutions": f.n_sub, "huge_lengths": f.n_huge, "versions": f.n_version, "substitution_pairs": f.n_pairs}));
+        meta.insert(SOURCES[b].name.to_string(), json!({"bytes": f.buf.len(), "structural_offsets": f.st.len(), "prefixes": f.n_prefix, "bit_flips": f.n_flip, "substitutions": f.n_sub, "huge_lengths": f.n_huge, "versions": f.n_version, "string_replacements": f.n_str, "substitution_pairs": f.n_pairs}));
         let total = f.total();
         let step = 1500;
         let mut s = 0;
@@ -553,7 +574,7 @@ fn check(ctx: &Ctx) -> i32 {
     });
     ctx.finish(
         "fault_enumeration",
-        "for each valid buffer (small engines of every rule-shape family, debug on/off, tags, cosmetic rules): every prefix, every single-bit flip, every structural byte (msgpack markers and length bytes found by a walker) replaced by each of 19 marker values, a 4 GiB length header spliced at every structural position, every version byte; thorough adds all pairs of structural substitutions on the two smallest buffers; plus all byte strings of length <= 5 over 8 header bytes and gzip-header variants. Each fault is loaded into a pre-loaded real engine inside a child process under a 64 MiB allocation ceiling and a 2 s ceiling; post-conditions: no panic/abort, on error the engine answers a fixed battery and serialises exactly as before, on success a battery built from the strings of the buffer runs and the engine re-serialises; distinct non-trivial = faults that loaded successfully",
+        "for each valid buffer (small engines of every rule-shape family, debug on/off, tags, cosmetic rules): every prefix, every single-bit flip, every structural byte (msgpack markers and length bytes found by a walker) replaced by each of 19 marker values, a 4 GiB length header spliced at every structural position, every version byte, every string value replaced by each of 12 short texts (re-encoded with a correct length); thorough adds all pairs of structural substitutions on the two smallest buffers; plus all byte strings of length <= 5 over 8 header bytes and gzip-header variants. Each fault is loaded into a pre-loaded real engine inside a child process under a 64 MiB allocation ceiling and a 2 s ceiling; post-conditions: no panic/abort, on error the engine answers a fixed battery and serialises exactly as before, on success a battery built from the strings of the buffer runs and the engine re-serialises; distinct non-trivial = faults that loaded successfully",
         &["allocations <= 2 KiB are not counted towards the ceiling", "the battery after a successful load is a fixed URL set plus URLs built from the ASCII runs of the faulty buffer"],
     )
 }
